@@ -98,10 +98,10 @@ class Hutchens1(ExactSolver):
         for n in range(1, self.Nsum):
             nb = np.pi * n / self.b
             x = (-1)**n / float(n)
-            x = x * np.where(r != 0, (2 * self.b / (np.pi * r)) * np.sin(nb * r), 0)  # bad at r=0
+            # limit of (2 b / (pi r)) sin(n pi r / b) for r -> 0 is 2 n
+            x = x * np.where(r != 0, (2 * self.b / (np.pi * np.where(r != 0, r, 1))) * np.sin(nb * r), 2. * n)
             x = x * np.exp(-alpha * nb**2 * t)
             temperature += x
-        temperature = np.where(r != 0, temperature, -1)  # value at r=0
         temperature = (self.Tb - self.T0) * temperature
         temperature = self.Tb + temperature
 
